@@ -35,8 +35,11 @@ func (SlidingWindow) New(cfg Config) fiber.Handler {
 			return c.Next()
 		}
 
-		// Get key from request
-		key := cfg.KeyGenerator(c)
+		// Get key from request. The key outlives the request (it becomes a key of the
+		// in-memory store or is handed to the storage), while a generator like
+		// `return c.Get("X-Api-Key")` returns a string that points into the request's
+		// buffers unless the app is Immutable - so keep a copy of our own.
+		key := utils.CopyString(cfg.KeyGenerator(c))
 
 		// Lock entry
 		mux.Lock()
